@@ -33,6 +33,9 @@ Replace-around steps (last section of lean/Props/C17.lean):
   (`gapGuard-true:slice-closed=…,ends-aligned=…`; slice closedness compared with the real step, alignment model-only).
 * mark step outside `[from, to]` of a replace-around step (`commute_succeeds_around_mark_partial`): `commuteGuard` with
   the mark step's range and the open depths of `doc.slice(from, to)`, same tie and oracle (`guard-around-mark:*`).
+* attr / remove-node-mark step outside `[from, to]` of a replace-around step with a closed slice
+  (`commute_succeeds_around_nodeStep_closed_partial`, no guard): relational oracle on the real code
+  (`nodeStep-closed=>converge`), counter `nodeStep-outside:slice-closed=…`.
 * two replace-around steps one after the other (`commute_succeeds_around_around`): `commuteGuard` on `(from, to, slice)`
   of both, same tie and oracle as for replace steps (counters `guard-around-around:*`).
 """
@@ -393,6 +396,15 @@ def run(ctx):
                                       + ("holds" if (g[0] or g[1]) else "fails"))
                             greqs.append({"op": "commuteGuard", "doc": info.node(d), "a": info.step(l), "b": info.step(r)})
                             gmetas.append((replay, g, dab is not None and dba is not None and dab.eq(dba)))
+                    if n_around == 1 and (isinstance(a, (AttrStep, RemoveNodeMarkStep)) or isinstance(b, (AttrStep, RemoveNodeMarkStep))):
+                        # `commute_succeeds_around_nodeStep_closed_partial`: no guard when the replace-around step's slice is
+                        # closed — the real code must apply both rebased steps and converge
+                        ar = a if isinstance(a, ReplaceAroundStep) else b
+                        closed = ar.slice.open_start == 0 and ar.slice.open_end == 0
+                        ctx.count("nodeStep-outside:slice-closed=%s" % closed)
+                        if closed and not (dab is not None and dba is not None and dab.eq(dba)):
+                            ctx.mismatch("nodeStep-closed=>converge", replay, "both rebased steps apply, equal documents",
+                                         {"ab_ok": dab is not None, "ba_ok": dba is not None})
                     if type(a) is ReplaceStep and type(b) is ReplaceStep:
                         l, r = (a, b) if a.to < b.from_ else (b, a)
                         stg, g = outcome(lambda: (inside_left(d, l, r), inside_right(d, l, r)))
